@@ -133,6 +133,7 @@ func (p *Prog) CmpRel(cond ssa.Value) (x, y ssa.Value, onTrue, onFalse Rel, ok b
 		if sc == nil {
 			return nil, nil, 0, 0, false
 		}
+		sc = p.unwrap(sc) // method expressions (sdk.Dec.GT(a, b)) go through a $thunk
 		n := sc.Name()
 		args := c.Call.Args
 		if r, isCmp := relOfMethod[n]; isCmp && len(args) == 2 {
